@@ -898,6 +898,11 @@ def c08():
     out.append(R("{% render 'broken' %}", {"error": True}, {}, {"broken": "{% if %}"}))
     # render ... with / for
     out.append(R("{% render 'show' with 'W' as v %}", {"output": "<W>"}, {}, srcs))
+    # render ... with ... as: only the explicit argument exists inside; no forloop is invented for it (round 10)
+    out.append(R("{% render 'wfl' with 'W' as v %}", {"output": "<W:n>"}, {}, {"wfl": "<{{ v }}:{% if forloop %}y{% else %}n{% endif %}>"}, "render-with starts from only its explicit arguments: no forloop inside"))
+    out.append(R("{% render 'wfi' with 'W' as v %}", {"error": True}, {}, {"wfi": "{{ forloop.index }}"}, "forloop is an unknown variable inside render-with"))
+    out.append(R("{% for o in (1..2) %}{% render 'wfl' with o as v %}{% endfor %}", {"output": "<1:n><2:n>"}, {}, {"wfl": "<{{ v }}:{% if forloop %}y{% else %}n{% endif %}>"}, "render-with inside a caller's loop sees neither the caller's nor an invented forloop"))
+    out.append(R("{% render 'wfl', v: 'K' %}", {"output": "<K:n>"}, {}, {"wfl": "<{{ v }}:{% if forloop %}y{% else %}n{% endif %}>"}))
     out.append(R("{% render 'fl' for (1..3) as v %}", {"output": "1:1:3:true:false;2:2:3:false:false;3:3:3:false:true;"}, {},
                  {"fl": "{{ v }}:{{ forloop.index }}:{{ forloop.length }}:{{ forloop.first }}:{{ forloop.last }};"}))
     out.append(R("{% for o in (1..2) %}{% render 'pl' for (1..2) as v %}{% endfor %}", {"error": True}, {}, {"pl": "{{ forloop.parentloop.index }}"}, "the caller's loops are invisible inside render"))
